@@ -7,6 +7,9 @@ import NbioVerif.Lemmas.WsTables
     answers (`e.inflate`: output, chunking, allocator capacities) and the mask keys are arbitrary. -/
 namespace Ws
 
+def demoCfgRL : Cfg := { enableCompression := false, writeCompression := false, msgLimit := 0, readLimit := 0, maxFrame := 100, isClient := false }
+def demoEnvRL : Env := { keyAt := fun _ => [0, 0, 0, 0], deflate := id, inflate := fun _ => ⟨[], []⟩ }
+
 /-- C15 (delivered): whatever bytes arrive in whatever segmentation, whatever the inflater and the allocator do,
     no message longer than the limit reaches the message handler — in one frame, in fragments, or inflated -/
 theorem c15_delivered_within (g : Cfg) (e : Env) (segs : List Bytes) (hL : g.msgLimit > 0) (t : Nat) (p : Bytes)
@@ -26,6 +29,10 @@ theorem c15_buffered_within (g : Cfg) (e : Env) (segs : List Bytes) (hL : g.msgL
     allocator capacity script; in particular a bomb cannot get through -/
 theorem c15_readAll_bound (L size : Nat) (o : InflObs) (b : Bytes) (hL : L > 0) (h : readAll L size o = .ok b) : b.length ≤ L :=
   readAll_bound L size o b hL h
+
+/-- C15 (inflate, every outcome): also when the message is refused as too large (the bomb itself) or the inflater
+    fails, the inflate buffer never held more than the limit -/
+theorem c15_inflate_held (L size : Nat) (o : InflObs) (hL : L > 0) : (readAll L size o).held ≤ L := readAll_held L size o hL
 
 /-- C15 (inflate loop progress): a full buffer below the limit grows by at least one byte and never past the limit;
     a reader step that returns nothing without an error on a non-empty buffer is outside the model (`stuck`),
@@ -66,9 +73,29 @@ theorem c15_control_send (g : Cfg) (e : Env) (i op : Nat) (data : Bytes) (hop : 
   have : data.length > 125 := hl
   simp [writeMessage, hop, this]
 
-/-- C15 (cache): the unparsed input kept between Parse calls never exceeds the read limit, except that a single read
-    into an empty cache may be kept whole: `|bytesCached| ≤ max ReadLimit (longest read)` in every reachable state -/
-theorem c15_cache_bound (g : Cfg) (e : Env) (segs : List Bytes) (B : Nat) (hB : ∀ seg ∈ segs, seg.length ≤ B) (hr : g.readLimit > 0) :
+/-- C15 (cache, by the message limit): while the connection lives, the unparsed input kept between Parse calls is an
+    incomplete header or an incomplete frame that passed the size checks: fewer than 14 + max 125 (limit − assembled) bytes,
+    whatever ReadLimit is -/
+theorem c15_cache_bound_by_limit (g : Cfg) (e : Env) (segs : List Bytes) (hL : g.msgLimit > 0)
+    (he : (feed g e {} segs []).err = none) :
+    (feed g e {} segs []).s.cache.length < 14 + max 125 (g.msgLimit - msgLen (feed g e {} segs []).s) := by
+  have hn := feed_need g e segs {} [] (by intro _; simp [msgLen, K.len]) (by simp [nextFrame, decodeHdr]) he
+  exact need_cache_lt g _ hL hn
+
+/- Full statement of the read-limit clause (does NOT hold on the current tree — known finding "ws-readlimit-first-read"):
+   theorem c15_cache_bound (g e segs) (hr : g.readLimit > 0) : (feed g e {} segs []).s.cache.length ≤ g.readLimit -/
+
+/-- C15 (cache, read limit) counterexample: ReadLimit = 4; one 7-byte read that ends inside a frame is kept whole,
+    because Parse applies the ReadLimit test only when something is cached already -/
+theorem c15_cache_bound_counterexample :
+    (feed { demoCfgRL with readLimit := 4 } demoEnvRL {} [[0x82, 10, 1, 2, 3, 4, 5]] []).s.cache.length = 7 ∧
+    (feed { demoCfgRL with readLimit := 4 } demoEnvRL {} [[0x82, 10, 1, 2, 3, 4, 5]] []).err = none := by
+  decide
+
+/-- C15 (cache, read limit; partial): the unparsed input kept between Parse calls never exceeds the read limit, except
+    that a single read into an empty cache may be kept whole: `|bytesCached| ≤ max ReadLimit (longest read)` in every
+    reachable state. Extra term with respect to the statement: `B`, the longest single read. -/
+theorem c15_cache_bound_partial (g : Cfg) (e : Env) (segs : List Bytes) (B : Nat) (hB : ∀ seg ∈ segs, seg.length ≤ B) (hr : g.readLimit > 0) :
     (feed g e {} segs []).s.cache.length ≤ max g.readLimit B := by
   have := feed_limits g e B segs {} [] hB (by intro _; simp [msgLen, K.len]) (by intro _; simp) (by intro _ t p hp; cases hp)
   exact this.2.2 hr
@@ -84,7 +111,7 @@ example : (feed demoCfg demoEnv {} [[0x82, 4, 1, 2, 3, 4]] []).err = some .tooLa
 example : (feed demoCfg demoEnv {} [[0x82, 4]] []).acts.map (fun a => match a with | .write b => b.take 4 | _ => []) = [[0x88, 38, 0x03, 0xf1]] := by
   decide
 /-- an inflater that hands out 4 bytes against a limit of 3 is stopped -/
-example : readAll 3 10 ⟨[1, 2, 3, 4], [⟨1024, 3, 0⟩, ⟨1, 1, 0⟩]⟩ = .tooLarge := by decide
+example : readAll 3 10 ⟨[1, 2, 3, 4], [⟨1024, 3, 0⟩, ⟨1, 1, 0⟩]⟩ = .tooLarge 3 := by decide
 example : readAll 3 10 ⟨[1, 2, 3], [⟨1024, 3, 0⟩, ⟨1, 0, 1⟩]⟩ = .ok [1, 2, 3] := by decide
 
 end Ws
